@@ -1,5 +1,6 @@
 From Coq Require Import ZArith List Bool Lia.
 From Arsenal Require Import Util.
+From Arsenal Require VamDev VamBlockList Vam VamInv VamInvMeta VamInvStep VamInvThm VamFailProps.
 From Arsenal Require Import SyncMem SyncMemProofs Budget BudgetProofs.
 Import ListNotations.
 Open Scope Z_scope.
@@ -31,3 +32,43 @@ Print Assumptions C10_failed_map_no_trace.
 
 Example C10_nonvacuous : in_domain ex_ops = true /\ in_bdomain ex_cfg ex_rep ex_bops = true.
 Proof. exact (conj ex_in_domain ex_in_bdomain). Qed.
+
+(* ---------------------------------------------------------------- whole allocator (model Vam*.v)
+   An AllocateMemory / AllocateMemorySlice that returns an error - for ANY reason incl. ANY injected driver
+   failure at ANY call position (the fault oracle f is universally quantified) - from any state satisfying the
+   allocator invariant: the invariant still holds, every Allocation object other than the requested ones is
+   untouched, the requested ones are as allocated as before, and if they were unallocated the set of allocated
+   objects is exactly the one before; C10_allocator_same_regions: then every live region of every block is
+   still there, in the block with the same id and the same device memory object (the two states differ at most
+   in empty blocks, block order and map counts).  Counters = device truth and the retention bound after the
+   failure are C04 / C20 (a failed step is a step of `reach`).  CreateBuffer/CreateImage and the other
+   operations are decided by the fault enumeration (vamh faults). *)
+Module Allocator.
+Import VamDev VamBlockList Vam VamInv VamInvThm VamFailProps.
+
+Theorem C10_allocator_failed_alloc_no_trace : forall c v o f v' code calls,
+  cfg_ok c -> VamInv c v -> op_ok v o -> step c v o f = (v', RErr code, calls) ->
+  match o with
+  | OAlloc slot _ _ _ _ _ _ _ _ _ =>
+      VamInv c v' /\ VamInvStep.tab_frame v v' (slot :: nil) /\
+      a_allocated (get_alloc v' slot) = a_allocated (get_alloc v slot) /\
+      (a_allocated (get_alloc v slot) = false -> same_slots v v')
+  | OAllocN slot n _ _ _ _ _ _ _ _ _ =>
+      VamInv c v' /\ VamInvStep.tab_frame v v' (slot_range slot (Z.to_nat n)) /\
+      (forall s, List.In s (slot_range slot (Z.to_nat n)) -> a_allocated (get_alloc v' s) = a_allocated (get_alloc v s)) /\
+      ((forall s, List.In s (slot_range slot (Z.to_nat n)) -> a_allocated (get_alloc v s) = false) -> same_slots v v')
+  | _ => True
+  end.
+Proof. intros c v o f v' code calls Hc. exact (failed_alloc_no_trace c Hc v o f v' code calls). Qed.
+Print Assumptions C10_allocator_failed_alloc_no_trace.
+
+Theorem C10_allocator_same_regions : forall c v v',
+  VamInv c v -> VamInv c v' -> same_slots v v' ->
+  forall lr l b rg, get_blist v lr = Some l -> List.In b (bl_blocks l) -> List.In rg (VamInvMeta.meta_live (bk_meta b)) ->
+  exists l' b' rg', get_blist v' lr = Some l' /\ List.In b' (bl_blocks l') /\ bk_id b' = bk_id b /\ bk_mem b' = bk_mem b /\
+    List.In rg' (VamInvMeta.meta_live (bk_meta b')) /\ VamInvMeta.rg_handle rg' = VamInvMeta.rg_handle rg /\
+    VamInvMeta.rg_tag rg' = VamInvMeta.rg_tag rg /\ VamInvMeta.rg_size rg' = VamInvMeta.rg_size rg /\
+    VamInvMeta.rg_align rg' = VamInvMeta.rg_align rg.
+Proof. exact same_slots_same_regions. Qed.
+Print Assumptions C10_allocator_same_regions.
+End Allocator.
